@@ -39,6 +39,10 @@ FEATURE_ORDER = ['applied to .inv', 'argument is a one-shot iterator', 'argument
                  'non-empty state']
 
 
+STATE_FEATS = {'applied to .inv', 'object derived from another instance', 'non-empty state'}
+DERIVED = {'__ior__': 'update', 'update': '__setitem__', 'setdefault': '__setitem__'}
+
+
 def R(f):
     try:
         return f()
@@ -69,13 +73,30 @@ class Agg:
         if rank < g['rank']:
             g.update(rank=rank, w=witness, d=detail, sn=snip)
 
+    def subsumed(self, key):
+        """|= is update(), update()/setdefault() are assignments, a default only matters for an absent key: a failure of
+        such a derived operation is reported at the operation it is defined through when that one fails too under (at
+        most) the same conditions; the constructor fills a new instance through update()"""
+        clause, site, form = key
+        cn, _, meth = site.rpartition('.')
+        g = self.g[key]
+        cands = [(meth, 'key')] if form == 'key, default' else []
+        if clause == 'instances_independent' and meth == '__init__':
+            cands.append(('update', form))
+        while meth in DERIVED:
+            meth = DERIVED[meth]
+            cands += [(meth, form), (meth, None)]
+        for bm, bf in cands:
+            for k2, g2 in self.g.items():
+                if k2 != key and k2[0] == clause and k2[1] == cn + '.' + bm and (bf is None or k2[2] == bf):
+                    if (g2['feats'] if bf else g2['feats'] & STATE_FEATS) <= g['feats']:
+                        return True
+        return False
+
     def flush(self, H):
         for (clause, site, form), g in sorted(self.g.items()):
-            if clause == 'instances_independent' and site.endswith('.__init__') and (clause, site[:-8] + 'update', form) in self.g:
-                continue   # the constructor fills the new instance through update(): one defect, reported at update
-            u = self.g.get((clause, site[:-7] + 'update', form)) if site.endswith('.__ior__') else None
-            if u is not None and u['feats'] <= g['feats']:
-                continue   # |= is update(): the same failure under the same conditions is reported at update
+            if self.subsumed((clause, site, form)):
+                continue
             wclass = form + ': ' + (', '.join(f for f in FEATURE_ORDER if f in g['feats']) or 'any state')
             H.fail(clause, site, wclass, g['w'], g['d'], g['sn'])
             H.fail_counts[(clause, site, wclass)] = g['n']
